@@ -772,7 +772,19 @@ fn step_vop(ob: &mut ObservableVector<Tracked>, vop: &VOp, mon: &mut Mon) -> Res
                 mon.take_fault()?;
                 let after = vals(&contents(ob));
                 if after != work {
-                    return div("C07|C17", format!("after commit the contents are {after:?}, the transaction's working contents were {work:?}"));
+                    // if, in addition, what was published does not lead to these contents either, subscribers
+                    // are told something else than what the vector holds: C05 as well
+                    let mut tag = "C07|C17";
+                    if mon.has_ref() {
+                        if let Some(msg) = mon.msgs.get(n0) {
+                            let mut r = before.clone();
+                            let applicable = msg.iter().all(|d| d.checked_apply(&mut r).is_ok());
+                            if !applicable || vals(&r) != after {
+                                tag = "C05|C07|C17";
+                            }
+                        }
+                    }
+                    return div(tag, format!("after commit the contents are {after:?}, the transaction's working contents were {work:?}"));
                 }
                 if !mon.has_ref() {
                     // no receiver exists: nothing to publish to; contents were just compared
